@@ -368,6 +368,11 @@ func (p *parser) _recover() bool {
 				return true
 			}
 
+			// An earlier error that is discarded with this entry marks the real
+			// beginning of the stretch being replaced: report that one.
+			if e, ok := p._stack.Peek(0).Sym.(Error); ok {
+				errSym = e
+			}
 			p._stack.Pop(1)
 		}
 
